@@ -20,11 +20,23 @@ import (
 	"fmt"
 	"time"
 
+	"github.com/olric-data/olric/internal/cluster/partitions"
+	"github.com/olric-data/olric/internal/discovery"
 	"github.com/olric-data/olric/internal/protocol"
 	"github.com/olric-data/olric/internal/resp"
 	"github.com/olric-data/olric/internal/util"
 	"github.com/olric-data/olric/pkg/storage"
+	"github.com/redis/go-redis/v9"
 )
+
+// atomicOwner returns the owner of the key's partition and reports whether it's this node. The
+// atomic operations are serialized by a lock which is local to the node: all of them have to
+// run on the partition owner, otherwise callers on different members lose updates.
+func (dm *DMap) atomicOwner(key string) (discovery.Member, bool) {
+	hkey := partitions.HKey(dm.name, key)
+	member := dm.s.primary.PartitionByHKey(hkey).Owner()
+	return member, member.CompareByName(dm.s.rt.This())
+}
 
 func (dm *DMap) loadCurrentAtomicInt(e *env) (int, int64, error) {
 	entry, err := dm.Get(e.ctx, e.key)
@@ -46,6 +58,29 @@ func (dm *DMap) loadCurrentAtomicInt(e *env) (int, int64, error) {
 }
 
 func (dm *DMap) atomicIncrDecr(cmd string, e *env, delta int) (int, error) {
+	if member, ok := dm.atomicOwner(e.key); !ok {
+		// Redirect to the partition owner.
+		var rcmd *redis.IntCmd
+		switch cmd {
+		case protocol.DMap.Incr:
+			rcmd = protocol.NewIncr(e.dmap, e.key, delta).Command(dm.s.ctx)
+		case protocol.DMap.Decr:
+			rcmd = protocol.NewDecr(e.dmap, e.key, delta).Command(dm.s.ctx)
+		default:
+			return 0, fmt.Errorf("invalid operation")
+		}
+		rc := dm.s.client.Get(member.String())
+		err := rc.Process(e.ctx, rcmd)
+		if err != nil {
+			return 0, protocol.ConvertError(err)
+		}
+		res, err := rcmd.Result()
+		if err != nil {
+			return 0, protocol.ConvertError(err)
+		}
+		return int(res), nil
+	}
+
 	atomicKey := e.dmap + e.key
 	dm.s.locker.Lock(atomicKey)
 	defer func() {
@@ -110,6 +145,27 @@ func (dm *DMap) Decr(ctx context.Context, key string, delta int) (int, error) {
 }
 
 func (dm *DMap) getPut(e *env) (storage.Entry, error) {
+	if member, ok := dm.atomicOwner(e.key); !ok {
+		// Redirect to the partition owner.
+		rcmd := protocol.NewGetPut(e.dmap, e.key, e.value).SetRaw().Command(dm.s.ctx)
+		rc := dm.s.client.Get(member.String())
+		err := rc.Process(e.ctx, rcmd)
+		if errors.Is(err, redis.Nil) {
+			// The key didn't exist.
+			return nil, nil
+		}
+		if err != nil {
+			return nil, protocol.ConvertError(err)
+		}
+		raw, err := rcmd.Bytes()
+		if err != nil {
+			return nil, protocol.ConvertError(err)
+		}
+		entry := dm.engine.NewEntry()
+		entry.Decode(raw)
+		return entry, nil
+	}
+
 	atomicKey := e.dmap + e.key
 	dm.s.locker.Lock(atomicKey)
 	defer func() {
@@ -169,6 +225,21 @@ func (dm *DMap) GetPut(ctx context.Context, key string, value interface{}) (stor
 }
 
 func (dm *DMap) atomicIncrByFloat(e *env, delta float64) (float64, error) {
+	if member, ok := dm.atomicOwner(e.key); !ok {
+		// Redirect to the partition owner.
+		rcmd := protocol.NewIncrByFloat(e.dmap, e.key, delta).Command(dm.s.ctx)
+		rc := dm.s.client.Get(member.String())
+		err := rc.Process(e.ctx, rcmd)
+		if err != nil {
+			return 0, protocol.ConvertError(err)
+		}
+		res, err := rcmd.Result()
+		if err != nil {
+			return 0, protocol.ConvertError(err)
+		}
+		return res, nil
+	}
+
 	atomicKey := e.dmap + e.key
 	dm.s.locker.Lock(atomicKey)
 	defer func() {
